@@ -411,10 +411,12 @@ class _RangeWrapper:
         return chunk
 
     def __next__(self) -> bytes:
+        # An empty item of the wrapped iterable is not the end of the range.
         chunk = self._next()
+        while not chunk and not self.end_reached:
+            chunk = self._next()
         if chunk:
             return chunk
-        self.end_reached = True
         raise StopIteration()
 
     def close(self) -> None:
